@@ -163,9 +163,19 @@ Definition run_list (op : Z) (hard : bool) (l : list ((Z * Z) * (Z * Z))) : list
 
 (* FOR steps: ((counter, step), (stop, sgn)) with 16-bit patterns *)
 Definition pat (v : Z) : buf16 := (v mod 256, v / 256).
+(* what the counter variable holds after counter_view.iadd(step) was left by an error (regenerated
+   int16_iadd_exitbuf): reported as 77 :: bytes when it differs from the old counter *)
+Definition enc_ctr_after_error (c s : buf16) : list Z :=
+  match int16_iadd_exitbuf c s with
+  | Ok b => if buf16_eqb b c then [] else 77 :: [fst b; snd b]
+  | _ => [78]
+  end.
 Definition run_for (l : list ((Z * Z) * (Z * Z))) : list Z :=
-  flat_map (fun p => enc_rstep (for_step (pat (fst (fst p))) (pat (snd (fst p))) (pat (fst (snd p)))
-                                         (snd (snd p)))) l.
+  flat_map (fun p =>
+    let c := pat (fst (fst p)) in
+    let s := pat (snd (fst p)) in
+    let r := for_step c s (pat (fst (snd p))) (snd (snd p)) in
+    enc_rstep r ++ match r with Err _ => enc_ctr_after_error c s | _ => [] end) l.
 
 (* ---------- which FOR record a NEXT iterates (interpreter.iterate_loop, hand model) ----------
    for_stack is a Python list, newest record last.  Every execution of a FOR statement appends a record
@@ -193,6 +203,23 @@ Definition next_step (st : list frec) (pos : Z) (vname : option Z) (get : Z -> b
       if match vname with Some v => negb (v =? f_var r) | None => false end then Err next_without_for
       else bind (for_step (get (f_var r)) (f_step r) (f_stop r) (f_sgn r)) (fun ce =>
              Ok (if snd ce then below else r :: below, (f_var r, fst ce), snd ce))
+  end.
+
+(* NEXT on the variable store: the loop variable is a view of the variable's memory and iadd works in place, so
+   whatever iadd leaves in the buffer - also when it raises - is what the variable holds afterwards *)
+Definition upd (store : Z -> buf16) (v : Z) (b : buf16) : Z -> buf16 :=
+  fun w => if w =? v then b else store w.
+Definition next_exec (st : list frec) (pos : Z) (vname : option Z) (store : Z -> buf16)
+  : (Z -> buf16) * res (list frec * (Z * buf16) * bool) :=
+  let r := next_step st pos vname store in
+  match find_rec pos st with
+  | None => (store, r)
+  | Some (rec, _) =>
+      if match vname with Some v => negb (v =? f_var rec) | None => false end then (store, r)
+      else match int16_iadd_exitbuf (store (f_var rec)) (f_step rec) with
+           | Ok b => (upd store (f_var rec) b, r)
+           | _ => (store, r)
+           end
   end.
 
 (* harness: records in Python order (oldest first) as (((var, stop), (step, sgn)), nextpos); two variables 0 / 1
